@@ -457,6 +457,31 @@ def case_write_walk(arg):
             return tr
         data = open(p1, 'rb').read()
         tr['records'], tr['tail'] = walk(data)
+        # the route of the writer's own documentation: the file saved as
+        # netCDF, opened as a netCDF dataset, written as uamiv - also when a
+        # cell holds the value netCDF uses as its default fill (read back
+        # masked): the bytes are those of the direct write
+        tr['ncroute'] = 'skipped'
+        if cfg['fmt'] == 'uamiv':
+            try:
+                import netCDF4
+                f2 = build_file(cfg)
+                for nm in names:
+                    v = f2.variables[nm]
+                    v[(0,) * v.ndim] = netCDF4.default_fillvals['f4']
+                pa = os.path.join(tmp, 'wa.uamiv')
+                o = pncgen(f2, pa, format='uamiv', verbose=0)
+                pn = os.path.join(tmp, 'wn.nc')
+                o = f2.save(pn, format='NETCDF3_CLASSIC', verbose=0)
+                o.close()
+                ds = netCDF4.Dataset(pn)
+                pb = os.path.join(tmp, 'wb.uamiv')
+                o = pncgen(ds, pb, format='uamiv', verbose=0)
+                tr['ncroute'] = 'same' if open(pa, 'rb').read() == open(
+                    pb, 'rb').read() else 'differs'
+            except Exception as ex:
+                tr['ncroute'] = 'raised %s: %s' % (type(ex).__name__,
+                                                   str(ex)[:80])
         try:
             cls = readers(cfg['fmt'])['memmap']
             g = cls(p1, cfg)
